@@ -139,9 +139,14 @@ func (rss *remoteSyncedStateMgr) UpdateApplyingSnapStatus(name string, ss Synced
 
 func (rss *remoteSyncedStateMgr) GetApplyingSnap(name string) (*SnapApplyStatus, bool) {
 	rss.Lock()
+	defer rss.Unlock()
 	sas, ok := rss.remoteSnapshotsApplying[name]
-	rss.Unlock()
-	return sas, ok
+	if !ok {
+		return nil, false
+	}
+	// return the copy since the status will be updated under the lock while applying
+	cp := *sas
+	return &cp, true
 }
 
 func (rss *remoteSyncedStateMgr) UpdateState(name string, state SyncedState) {
